@@ -22,9 +22,10 @@ import (
 type world struct {
 	lb      *loadbalancer.LoadBalancer
 	fn      *lab.FakeNet
-	names   []string             // current pool, by name
-	host    map[string]string    // name -> host
-	until   map[string]time.Time // name -> end of its unhealthy window
+	names   []string             // current pool: instance ids (= the instance's unique host label)
+	host    map[string]string    // instance id -> host
+	bname   map[string]string    // instance id -> configured backend name (names may repeat)
+	until   map[string]time.Time // instance id -> end of its unhealthy window
 	nextID  int
 	pending []chan result // parked requests not yet finished
 }
@@ -40,19 +41,21 @@ func newWorld(strategy string, weights []int) (*world, error) {
 	if err != nil {
 		return nil, err
 	}
-	w := &world{lb: lb, fn: lab.NewFakeNet(), host: map[string]string{}, until: map[string]time.Time{}}
+	w := &world{lb: lb, fn: lab.NewFakeNet(), host: map[string]string{}, bname: map[string]string{}, until: map[string]time.Time{}}
 	for i := range weights {
 		w.names = append(w.names, lab.BackendName(i))
 		w.host[lab.BackendName(i)] = lab.BackendHost(i)
+		w.bname[lab.BackendName(i)] = lab.BackendName(i)
 	}
 	w.nextID = len(weights)
 	w.fn.Install(lb)
 	return w, nil
 }
 
-func (w *world) backend(name string) *loadbalancer.Backend {
+// backend finds the registered instance by its (unique) host.
+func (w *world) backend(id string) *loadbalancer.Backend {
 	for _, b := range w.lb.VerifBackends() {
-		if b.Name == name {
+		if b.URL.Host == w.host[id] {
 			return b
 		}
 	}
@@ -144,7 +147,7 @@ var advances = []time.Duration{300 * time.Millisecond, 900 * time.Millisecond, 1
 func clientAddr(k int) string { return fmt.Sprintf("10.%d.%d.%d:5%03d", k%7, (k/7)%251, k%253, k%1000) }
 
 func TestC02Failover(t *testing.T) {
-	sub := lab.Sub("failover-histories", "rapid histories over {eject(i,window) via MarkBackendUnhealthy, advance, add, remove, request(client), hold (request parked in a backend), release, spin(k)} "+
+	sub := lab.Sub("failover-histories", "rapid histories over {eject(i,window) via MarkBackendUnhealthy, advance, add (sometimes under a name already in use), remove(name), set_strategy, request(client), hold (request parked in a backend), release, spin(k)} "+
 		"against the real LoadBalancer.ServeHTTP in virtual time (L1 scripted backends, all answer 200), 5 strategies x pools of 1..6 x weights 1..6; oracle: served backend is outside every unhealthy window the harness issued, "+
 		"and 'no healthy backend' 503 only when every pool member is inside one; non-trivial = history with a request issued while 1 <= ejected < pool size")
 	sub.NontrivialFloor(0.35)
@@ -165,6 +168,7 @@ func TestC02Failover(t *testing.T) {
 		var viol string
 		partial := 0
 		requests := 0
+		dupNames, switched := false, false
 		rapid.SyncTest(rt, func(rt *rapid.T) {
 			w, err := newWorld(strategy, weights)
 			if err != nil {
@@ -242,13 +246,21 @@ func TestC02Failover(t *testing.T) {
 					d := rapid.SampledFrom(advances).Draw(rt, "advance")
 					time.Sleep(d)
 					hist = append(hist, fmt.Sprintf("adv(%v)", d))
-				case k < 72: // spin: several requests to move the rotation
+				case k < 68: // strategy switch at runtime: health state must survive it
+					to := rapid.SampledFrom(lab.Strategies).Draw(rt, "switch")
+					if err := w.lb.SetStrategy(to); err != nil {
+						rt.Fatalf("harness: SetStrategy(%s): %v", to, err)
+					}
+					w.fn.Install(w.lb)
+					switched = true
+					hist = append(hist, "strategy("+to+")")
+				case k < 74: // spin: several requests to move the rotation
 					m := rapid.IntRange(2, 7).Draw(rt, "spin")
 					hist = append(hist, fmt.Sprintf("spin(%d)", m))
 					for j := 0; j < m && viol == ""; j++ {
 						doRequest(clientAddr(100+j), false)
 					}
-				case k < 80: // hold: park a request in whichever backend the strategy picks
+				case k < 81: // hold: park a request in whichever backend the strategy picks
 					c := rapid.IntRange(0, 40).Draw(rt, "client")
 					hist = append(hist, fmt.Sprintf("hold(c%d)", c))
 					doRequest(clientAddr(c), true)
@@ -271,33 +283,54 @@ func TestC02Failover(t *testing.T) {
 					if len(w.names) >= 6 {
 						continue
 					}
-					name := lab.BackendName(w.nextID)
+					id := lab.BackendName(w.nextID)
 					host := lab.BackendHost(w.nextID)
 					w.nextID++
 					wt := rapid.IntRange(1, 6).Draw(rt, "addw")
+					name := id
+					if len(w.names) > 0 && rapid.IntRange(0, 3).Draw(rt, "dupname") == 0 {
+						// a second backend under a name that is already in use (the admin API and the
+						// configuration accept that); removal removes every backend of the name
+						name = w.bname[w.names[rapid.IntRange(0, len(w.names)-1).Draw(rt, "dupof")]]
+						dupNames = true
+					}
 					if err := w.lb.AddBackend(config.BackendConfig{Name: name, Address: "http://" + host, Weight: wt}); err != nil {
 						rt.Fatalf("harness: add: %v", err)
 					}
-					w.names = append(w.names, name)
-					w.host[name] = host
+					w.names = append(w.names, id)
+					w.host[id] = host
+					w.bname[id] = name
 					w.fn.Install(w.lb)
-					hist = append(hist, fmt.Sprintf("add(%s,w%d)", name, wt))
+					hist = append(hist, fmt.Sprintf("add(%s as %q,w%d)", id, name, wt))
 				default: // remove
 					if len(w.names) <= 1 {
 						continue
 					}
 					i := rapid.IntRange(0, len(w.names)-1).Draw(rt, "rm")
-					name := w.names[i]
+					name := w.bname[w.names[i]]
 					w.lb.RemoveBackend(name)
-					w.names = append(w.names[:i:i], w.names[i+1:]...)
-					delete(w.until, name)
-					hist = append(hist, "remove("+name+")")
+					var kept []string
+					for _, id := range w.names {
+						if w.bname[id] == name {
+							delete(w.until, id)
+							continue
+						}
+						kept = append(kept, id)
+					}
+					w.names = kept
+					hist = append(hist, fmt.Sprintf("remove(%q)", name))
 				}
 			}
 		})
 		labels := []string{strategy, fmt.Sprintf("n%d", n)}
 		if partial > 0 {
 			labels = append(labels, "request-while-partially-ejected")
+		}
+		if dupNames {
+			labels = append(labels, "duplicate-backend-names")
+		}
+		if switched {
+			labels = append(labels, "strategy-switch")
 		}
 		sub.Case(map[string]any{"strategy": strategy, "weights": weights, "history": hist}, partial > 0, labels...)
 		sub.Count("requests", requests)
